@@ -452,7 +452,23 @@ func (gen *generator) irFuncDecl(new *ir.Func, old *ast.FuncDecl) error {
 	}
 	new.Metadata = md
 	// Function header.
-	return gen.irFuncHeader(new, old.Header())
+	if err := gen.irFuncHeader(new, old.Header()); err != nil {
+		return errors.WithStack(err)
+	}
+	// A function declaration has no body, and thus no index of local identifiers
+	// in which a parameter name used twice would be detected.
+	names := make(map[string]bool)
+	for _, param := range new.Params {
+		if param.IsUnnamed() {
+			continue
+		}
+		name := param.Name()
+		if names[name] {
+			return errors.Errorf("local identifier %q already present in declaration of function %q", param.Ident(), new.Ident())
+		}
+		names[name] = true
+	}
+	return nil
 }
 
 // --- [ Function definitions ] ------------------------------------------------
